@@ -145,9 +145,13 @@ pub fn resolve(mods: &ModuleSet, loc: &Locator) -> Result<Graph> {
 
     let tree = mods.get(loc).unwrap();
     let prog = Program::cast(tree.root()).expect("root should be a program");
+    // Imported identifiers shadow the standard library.
+    env.open();
     for import in prog.imports() {
         declare_import(env, mods, loc, import)?;
     }
+    // Declarations of the module shadow imported identifiers.
+    env.open();
     for decl in prog.declarations() {
         declare_variable(env, decl)?;
     }
